@@ -361,8 +361,11 @@ func (h *harness) pipelineRound(ctx context.Context, round int) {
 	// PyPI project names as authors spell them: mixed case, '.', '_' (the
 	// advisory carries the PEP 503 name, as the OSV schema prescribes)
 	pyRawV, pyRawF := pyP.vulnBin, pyP.fixedBin
-	if h.rnd.Chance(1, 2) {
+	if round == 0 || h.rnd.Chance(1, 2) {
 		sep := h.rnd.Pick("_", ".", "-", "__")
+		if round == 0 {
+			sep = "-" // mixed case only: the spelling the scanner is expected to fold
+		}
 		pyRawV = strings.ToUpper(pyRawV[:1]) + strings.Replace(pyRawV[1:], "-", sep, 1)
 		pyRawF = strings.Replace(pyRawF, "-", sep, 1)
 	}
@@ -420,6 +423,15 @@ func (h *harness) pipelineRound(ctx context.Context, round int) {
 			continue
 		}
 		h.checkImage("alpine", e.Release, ir, st, apkP, "ADV-alpine-"+e.Release+"-vuln")
+		// the same image without os-release: the release comes from etc/issue
+		if is, ok := fileOf(e.Files, "etc/issue"); ok {
+			ir3, err := indexImage(ctx, map[string][]byte{"lib/apk/db/installed": apkDB(apkP), "etc/issue": is}, []indexer.DistributionScanner{distScanner("alpine")}, []indexer.PackageScanner{&apk.Scanner{}}, lin())
+			if err != nil {
+				fail("index alpine "+e.Release+" (etc/issue only)", err)
+			} else {
+				h.checkImage("alpine", e.Release+" (etc/issue only)", ir3, st, apkP, "ADV-alpine-"+e.Release+"-vuln")
+			}
+		}
 		// the same image with a VERSION_ID of two or four components (the
 		// release is what PRETTY_NAME says; VERSION_ID carries the patch level)
 		if e.Release != "edge" {
@@ -494,6 +506,22 @@ func (h *harness) pipelineRound(ctx context.Context, round int) {
 			continue
 		}
 		h.checkImage("ubuntu", s[0], ir, st, ubP, "ADV-ubuntu-"+s[0]+"-vuln")
+		// the same image without lsb-release, when its os-release names the
+		// series (16.04 and later; older ones do not: the images ship lsb-release)
+		if osr, ok := fileOf(fxd.files, "etc/os-release"); ok && strings.Contains(string(osr), "VERSION_CODENAME=") {
+			f2 := map[string][]byte{}
+			for k, v := range files {
+				if k != "etc/lsb-release" {
+					f2[k] = v
+				}
+			}
+			ir2, err := indexImage(ctx, f2, []indexer.DistributionScanner{distScanner("debian"), distScanner("ubuntu")}, []indexer.PackageScanner{&dpkg.Scanner{}}, lin())
+			if err != nil {
+				fail("index ubuntu "+s[0]+" (os-release only)", err)
+			} else {
+				h.checkImage("ubuntu", s[0]+" (os-release only)", ir2, st, ubP, "ADV-ubuntu-"+s[0]+"-vuln")
+			}
+		}
 	}
 	// rpm distributions: the distribution scanners are real, the package
 	// records are built by hand as rpm.Scanner reports them (no rpm database
